@@ -169,6 +169,7 @@ PARTS = MACROS + [
     Item('markup5ever/util/buffer_queue.rs', 'enum', 'SetResult'),
     Raw('pub use SetResult::{FromSet, NotFromSet};'),
     Item('markup5ever/util/buffer_queue.rs', 'struct', 'BufferQueue'),
+    Prelude('enttab.prelude.rs'),
     Prelude('htok.spec.rs'),
     Prelude('whatwg.spec.rs'),
     Prelude('charref.spec.rs'),
